@@ -129,7 +129,7 @@ def geLoop (v : View) (kn : List Nat) : Nat → GESt → Nat → Except Err (GES
       let step : Except Err (Sum (GESt × Option Nat) Nat) :=
         match r.pref with
         | .stored p =>
-          if i > l then .error (.panic "slice bounds out of range: key[i>>3:]") else
+          if i / 2 > l / 2 then .error (.panic "slice bounds out of range: key[i>>3:]") else
           match cmpUpto (kn.drop (i - i % 2)) p with
           | .eq => .ok (.inr (i - i % 2 + p.length))
           | .lt => .ok (.inl ({ st with rID := some eqID, rightPathLen := st.path.length }, none))
@@ -166,7 +166,7 @@ def getGEPath (v : View) (key : Bytes) : Except Err GEPath := do
   let (st, eqID) ← geLoop v kn (v.nodeCnt + 1) {} 0
   match eqID with
   | some eq =>
-    if st.i > kn.length then .error (.panic "slice bounds out of range: key[i>>3:]") else
+    if st.i / 2 > kn.length / 2 then .error (.panic "slice bounds out of range: key[i>>3:]") else
     let r := cmpLeafPrefix v (key.drop (st.i / 2)) st.lp
     if r != .gt then return { path := (eq :: st.path).reverse, eq := r == .eq }
     else fallback st
